@@ -22,6 +22,7 @@ func init() {
 		c10NonceStable(c)
 		c10AuthError(c)
 		c10RetryOnce(c)
+		c10URIRendering(c)
 		c09FreeTextFor(c, "C10/BASIC-SPLIT")
 	}
 }
@@ -719,5 +720,107 @@ func c10CtxConn(c *Ctx) {
 	}
 	if n == 0 {
 		r.Fail("C10/CTX-CONN", "handler contexts", "", "none found")
+	}
+}
+
+// c10URIRendering (added after the seeded change C10-r3m2 was missed: the client built the digest
+// uri by concatenating scheme, host and RequestURI, which differs from the request line for a URL
+// without a path, so a correct password was refused): the uri the client puts into its digest
+// answer is produced by the same rendering as the request line, (*base.URL).String() of the
+// credential-free clone — sibling agreement between the two writers the verifier compares.
+func c10URIRendering(c *Ctx) {
+	p, r := c.P, c.R
+	r.Rule("C10/URI-RENDERING", "the digest uri of the client's Authorization header is rendered like the request line: every value stored into headers.Authorization.URI by pkg/auth is the result of (*base.URL).String() (the verifier compares that uri with the URL it received on the request line)", 1)
+	uriF := p.Field("pkg/headers", "Authorization", "URI")
+	str := p.Func("pkg/base", "URL.String")
+	if !r.Anchor("C10/URI-RENDERING", "headers.Authorization.URI / base.URL.String", uriF != nil && str != nil) {
+		return
+	}
+	var fromString func(v ssa.Value, depth int, seen map[ssa.Value]bool) (bool, string)
+	fromString = func(v ssa.Value, depth int, seen map[ssa.Value]bool) (bool, string) {
+		if seen[v] {
+			return true, ""
+		}
+		seen[v] = true
+		switch x := v.(type) {
+		case *ssa.Call:
+			cal := x.Call.StaticCallee()
+			if cal == str || cal != nil && cal.Origin() == str {
+				return true, ""
+			}
+			// a helper of the package that returns such a string
+			if cal != nil && cal.Blocks != nil && depth < 2 && core.InRepo(cal) && cal.Signature.Results().Len() == 1 {
+				for _, ret := range core.Returns(cal) {
+					if ok, why := fromString(ret.Results[0], depth+1, seen); !ok {
+						return false, why
+					}
+				}
+				return true, ""
+			}
+			return false, "result of " + core.CalleeObjName(x)
+		case *ssa.Phi:
+			for _, e := range x.Edges {
+				if ok, why := fromString(e, depth, seen); !ok {
+					return false, why
+				}
+			}
+			return true, ""
+		case *ssa.UnOp:
+			if al, ok := x.X.(*ssa.Alloc); ok {
+				n := 0
+				for _, rr := range *al.Referrers() {
+					if st, ok := rr.(*ssa.Store); ok && st.Addr == ssa.Value(al) {
+						n++
+						if ok, why := fromString(st.Val, depth, seen); !ok {
+							return false, why
+						}
+					}
+				}
+				return n > 0, "a local never assigned"
+			}
+		case *ssa.Parameter:
+			// handed to a helper: every call site must pass such a string
+			fn := x.Parent()
+			idx := -1
+			for i, q := range fn.Params {
+				if q == x {
+					idx = i
+				}
+			}
+			refs := p.RefsTo(fn)
+			if idx < 0 || len(refs) == 0 || token.IsExported(fn.Name()) || depth >= 2 {
+				return false, "a parameter of " + fnShort(fn)
+			}
+			for _, ref := range refs {
+				ci, isCall := ref.Instr.(*ssa.Call)
+				if !isCall || !ref.IsCall || idx >= len(ci.Call.Args) {
+					return false, "a parameter of " + fnShort(fn) + " (used as a value)"
+				}
+				if ok, why := fromString(ci.Call.Args[idx], depth+1, seen); !ok {
+					return false, why
+				}
+			}
+			return true, ""
+		case *ssa.BinOp:
+			return false, "a string built by concatenation"
+		}
+		return false, fmt.Sprintf("%T", v)
+	}
+	n := 0
+	for _, acc := range p.FieldAccesses(uriF) {
+		st, ok := acc.Instr.(*ssa.Store)
+		if !ok || st.Addr != ssa.Value(acc.Addr) {
+			continue
+		}
+		pk := core.FuncPkg(acc.Fn)
+		if pk == nil || core.Rel(pk.Path()) != "pkg/auth" {
+			continue
+		}
+		n++
+		ok2, why := fromString(st.Val, 0, map[ssa.Value]bool{})
+		r.Check(ok2, "C10/URI-RENDERING", fmt.Sprintf("%s sets Authorization.URI #%d", fnShort(acc.Fn), n), p.Pos(st.Pos()), "(*base.URL).String()", "the digest uri is "+why+", not the rendering used for the request line: the two differ for some URLs (no path, escapes) and the server then refuses a correct answer")
+	}
+	if n == 0 {
+		r.Fail("C10/URI-RENDERING", "stores to Authorization.URI in pkg/auth", "", "none found")
 	}
 }
